@@ -272,6 +272,42 @@ theorem readAt_field (f : List Nat) (pos sz off n : Nat) (r : List Nat) (hfit : 
 
 theorem le32_length (v : Nat) : (le32 v).length = 4 := rfl
 
+theorem passwdUpdate_some (c : Config) (f : List Nat) (uid : Int) (r f' : List Nat) (sz : Nat) (t : Ty)
+    (hs : c.seek "cmbbs.PasswdUpdate" = some ⟨some sz, []⟩) (ht : c.ty "UserecRaw" = some t)
+    (h : passwdUpdate c f uid r = some f') :
+    ∃ u, validUid c uid = some u ∧ r.length = sizeP t ∧ f' = writeAt f (seekPos sz u 0) r := by
+  unfold passwdUpdate at h
+  split at h
+  · cases h
+  · rename_i u hu
+    simp only [hs, ht] at h
+    split at h
+    · rename_i hb
+      simp only [Option.some.injEq] at h
+      exact ⟨u, hu, hb, h.symm⟩
+    · cases h
+
+/-- every field of the packed layout lies inside the packed image. -/
+theorem fieldsP_bound : ∀ (fs : Fields) (off0 : Nat) (e : String × Nat × Nat), e ∈ fieldsP fs off0 →
+    off0 ≤ e.2.1 ∧ e.2.1 + e.2.2 ≤ off0 + sizePs fs
+  | [], _, e, h => by simp [fieldsP] at h
+  | (n, t) :: r, off0, e, h => by
+      simp only [fieldsP, List.mem_cons] at h
+      rcases h with h | h
+      · subst h; simp [sizePs]
+      · have := fieldsP_bound r (off0 + sizeP t) e h
+        simp only [sizePs]; omega
+
+theorem packed_field_bound (t : Ty) (i : Nat) (e : String × Nat × Nat) (h : t.packed[i]? = some e) :
+    e.2.1 + e.2.2 ≤ sizeP t := by
+  have hm : e ∈ t.packed := List.mem_of_getElem? h
+  cases t with
+  | prim s a => simp [Ty.packed, Ty.fields, fieldsP] at hm
+  | arr n e' => simp [Ty.packed, Ty.fields, fieldsP] at hm
+  | struct fs =>
+    have := fieldsP_bound fs 0 e hm
+    simp only [sizeP]; omega
+
 /-- two consecutive 4-byte writes at offsets 4 and 8 of a 128-byte record. -/
 theorem double_write_frame (f1 x y : List Nat) (hx : x.length = 4) (hy : y.length = 4) (hl : f1.length = 128) :
     (writeAt (writeAt f1 4 x) 8 y).length = 128 ∧
